@@ -4,7 +4,7 @@ miasmX replays them (eval_abs.eval_instr / eval_expr, emul_helper.emul_lines); C
 read-back tree, register expression and the projected pool with IR.Eval under valuations and compares with the concrete
 SymMem memory / the Machine.tla fold of the SAME lifted assignments.  SymPool.tla is the implementation-shaped model of
 the pool on which TLC checks the property itself (and whose as-coded variant yields the design-level counterexample)."""
-import os, sys, json, random, hashlib, subprocess, collections, re, tempfile, shutil, time
+import os, sys, json, random, hashlib, subprocess, collections, re, tempfile, shutil, time, signal
 from . import core, irlib, expr_json as EJ
 from .core import limbs
 
@@ -278,15 +278,15 @@ def _hist_inner(arg):
     return {'st': 'ok', 'obs': obs, 'cells': _cells(m, X)}
 
 
-def _run_hist(acts):
+def _run_hist(acts, limit=10):
     """replay one SymMem history on a fresh eval_abs; every expression handed in is built from fresh objects.
-    st = ok | exc (exception, at action excj) | timeout (no answer within 10 s, at action excj)"""
+    st = ok | exc (exception, at action excj) | timeout (no answer within the limit, at action excj)"""
     progress = [0]
-    st, r = irlib.guarded(_hist_inner, (acts, progress), 10)
+    st, r = irlib.guarded(_hist_inner, (acts, progress), limit)
     if st == 'ok':
         return r
     return {'st': st, 'obs': [], 'cells': [], 'excj': max(1, progress[0]),
-            'exc': r if st == 'exc' else {'exc': 'Timeout', 'func': '', 'line': 'no result within 10 s'}}
+            'exc': r if st == 'exc' else {'exc': 'Timeout', 'func': '', 'line': 'no result within the time limit'}}
 
 
 _PARTIAL = {}
@@ -327,9 +327,20 @@ def _prog_inner(item):
         combos = [(k, d, w) for k in keys for d in range(-3, 4) for w in (8, 16, 32)]
         random.Random(seed).shuffle(combos)
         rbs = []
+        t_end = time.time() + 40
         for k, d, w in combos[:nrb]:
             req = X.ExprOp('+', _fresh(k.arg, X), X.ExprInt(M.uint32(d & 0xffffffff)))
-            rbs.append({'a': EJ.to_json(req, X), 'w': w, 'r': EJ.to_json(m.eval_expr(X.ExprMem(req, w), {}), X)})
+            rb = {'a': EJ.to_json(req, X), 'w': w}
+            signal.alarm(5)           # a read-back that raises or does not answer fails alone (clause C07.noanswer), not the program
+            try:
+                rb['r'] = EJ.to_json(m.eval_expr(X.ExprMem(req, w), {}), X)
+            except irlib._TO:
+                rb['r'], rb['x'] = {'k': 'none'}, {'exc': 'Timeout', 'func': '', 'line': 'no result within 5 s'}
+            except Exception as x:
+                rb['r'], rb['x'] = {'k': 'none'}, irlib.exc_key(x)
+            finally:
+                signal.alarm(max(1, int(t_end - time.time())))
+            rbs.append(rb)
         return {'st': 'ok', 'pool0': pool0, 'regs': regs, 'cells': cells, 'rbs': rbs, 'cells_bl': snaps[-1],
                 'instrs': [{'txt': l['txt'], 'rep': l['rep'], 'affs': a} for l, a in zip(lines, cap)]}
     except ValueError as x:
@@ -339,12 +350,12 @@ def _prog_inner(item):
         raise
 
 
-def _run_prog(item):
+def _run_prog(item, limit=60):
     _PARTIAL.clear()
-    st, r = irlib.guarded(_prog_inner, item, 60)
+    st, r = irlib.guarded(_prog_inner, item, limit)
     if st == 'ok':
         return r
-    out = {'st': st, 'exc': r if st == 'exc' else {'exc': 'Timeout', 'func': '', 'line': 'no result within 60 s'}}
+    out = {'st': st, 'exc': r if st == 'exc' else {'exc': 'Timeout', 'func': '', 'line': 'no result within the time limit'}}
     if _PARTIAL.get('cap'):
         # what is known about the instruction that failed: its lifted assignments and the pool before it
         n = len(_PARTIAL['cap'])
@@ -419,6 +430,9 @@ def prog_envs(rec, n=NENV):
 # records, judging, classification
 def hist_records(hists, rnd, start_id):
     outs = irlib.pmap(_run_hist, hists, chunk=500)
+    for i, o in enumerate(outs):          # a time-out counts only if it repeats with a six-fold limit on the quiet parent process
+        if o['st'] == 'timeout':
+            outs[i] = _run_hist(hists[i], 60)
     recs = []
     for i, (h, o) in enumerate(zip(hists, outs)):
         r = {'id': start_id + i, 't': 'h', 'acts': h, 'envs': hist_envs(h, rnd)}
@@ -435,6 +449,9 @@ def prog_items(progs, nrb, seed):
 
 def prog_records(items, rnd, start_id, stats):
     outs = irlib.pmap(_run_prog, items, chunk=20)
+    for i, o in enumerate(outs):          # a time-out counts only if it repeats with a three-fold limit on the parent process
+        if o['st'] == 'timeout':
+            outs[i] = _run_prog(items[i], 180)
     # a program the emulator declines at instruction k is judged up to instruction k-1
     redo = [(i, dict(items[i], lines=items[i]['lines'][:o['at'] - 1])) for i, o in enumerate(outs) if o['st'] == 'declined' and o['at'] > 1]
     stats['declined_by_emulator (rep termination undecidable), judged up to the declined instruction'] += sum(1 for o in outs if o['st'] == 'declined')
@@ -466,7 +483,10 @@ def _strip(r):
             return {'id': r['id'], 't': 'p', 'st': r['st'], 'part': 1, 'pool0': r['pool0'], 'instrs': r['instrs'], 'cells_bl': r['cells_bl'], 'envs': r['envs'][:1]}
         return {'id': r['id'], 't': r['t'], 'st': r['st'], 'part': 0}
     drop = ('lines', 'nrb', 'seed', 'nodes', 'exc')
-    return {k: v for k, v in r.items() if k not in drop}
+    out = {k: v for k, v in r.items() if k not in drop}
+    if r['t'] == 'p':
+        out['rbs'] = [{k: v for k, v in rb.items() if k != 'x'} for rb in r['rbs']]
+    return out
 
 
 def judge(chk, recs, timeout=3000):
@@ -521,7 +541,7 @@ def prog_features(r):
 
 
 def _is_rb(f):
-    return f['clause'] == 'C07.readback' or (f['clause'] in ('C07.welltyped', 'C07.width') and f.get('what') == 'readback')
+    return f['clause'] in ('C07.readback', 'C07.noanswer') or (f['clause'] in ('C07.welltyped', 'C07.width') and f.get('what') == 'readback')
 
 
 def _state_diverged(v):
@@ -554,7 +574,7 @@ def _prog_detail(r, mr, f):
         detail['pool_text'] = ['@%d[%s] = %s' % (c['w'], EJ.show(c['a']), EJ.show(c['v'])) for c in mr['cells']]
         if 'rb' in f:
             rb = mr['rbs'][f['rb'] - 1]
-            detail['readback_text'] = '@%d[%s] -> %s' % (rb['w'], EJ.show(rb['a']), EJ.show(rb['r']))
+            detail['readback_text'] = '@%d[%s] -> %s' % (rb['w'], EJ.show(rb['a']), EJ.show(rb['r']) if 'x' not in rb else rb['x'])
         if 'reg' in f:
             detail['reg_text'] = [EJ.show(x['e']) for x in mr['regs'] if x['n'] == f['reg']]
     else:
